@@ -406,7 +406,9 @@ def build_cons(cons, vals=None, flags=None, form=0):
     if form == 1:
         groups = {}
         for j, c in enumerate(cons):
-            if c["p"] and c["p"][0].isdigit():
+            # an address may hold only one array-valued index (the API rejects a scalar index after an array index):
+            # paths with a second index level keep form 0
+            if c["p"] and c["p"][0].isdigit() and not any(x.isdigit() for x in c["p"][1:]):
                 groups.setdefault(tuple(c["p"][1:]), []).append(j)
         for suffix, js in groups.items():
             if len(js) < 2:
